@@ -95,8 +95,8 @@ class C17(Check):
                 "Pox.C17.handshake_defers_in_order", "Pox.C17.stats_two_requests", "Pox.C17.raw_event_exactly_for_stats"]
     anchors = [("pox/openflow/of_01.py", 68, 111), ("pox/openflow/of_01.py", 176, 190), ("pox/openflow/of_01.py", 245, 254),
                ("pox/openflow/of_01.py", 337, 344), ("pox/openflow/of_01.py", 369, 372), ("pox/openflow/of_01.py", 390, 395),
-               ("pox/openflow/of_01.py", 397, 404), ("pox/openflow/of_01.py", 597, 711), ("pox/openflow/of_01.py", 756, 756),
-               ("pox/openflow/of_01.py", 772, 772), ("pox/openflow/of_01.py", 785, 787), ("pox/openflow/of_01.py", 964, 984),
+               ("pox/openflow/of_01.py", 397, 404), ("pox/openflow/of_01.py", 601, 715), ("pox/openflow/of_01.py", 760, 760),
+               ("pox/openflow/of_01.py", 776, 776), ("pox/openflow/of_01.py", 789, 791), ("pox/openflow/of_01.py", 968, 988),
                ("pox/openflow/__init__.py", 127, 165)]
     design_ref = "DESIGN.md §5 C17, §6 D17/D18, Appendix E"
     technique = ("Lean 4 proof: refinement of an abstract port map / per-request reply specification by hand-written executable models of PortCollection and "
@@ -132,8 +132,45 @@ class C17(Check):
                 "import_time_note": "def/decorator/class-body/module-level lines of the anchored ranges, observed executing while the module was imported in this process"}
     search_budget = {"quick": 1500, "thorough": 20000}
 
+    # ------------------------------------------------------------------ anchors from the source text (line numbers move with every commit)
+    def _anchors_from_ast(self):
+        import ast, os
+        out = []
+        def span(n): return (min([n.lineno] + [d.lineno for d in getattr(n, "decorator_list", [])]), n.end_lineno)
+        rel = "pox/openflow/of_01.py"
+        tree = ast.parse(open(os.path.join(common.REPO, rel)).read())
+        top = {n.name: n for n in tree.body if isinstance(n, (ast.FunctionDef, ast.ClassDef))}
+        def meth(cls, name): return [n for n in top[cls].body if isinstance(n, ast.FunctionDef) and n.name == name][-1]
+        def stmts(fn, pred): return [st for st in ast.walk(fn) if isinstance(st, ast.stmt) and pred(ast.unparse(st))]
+        for f in ("handle_OFPST_DESC", "handle_OFPST_FLOW", "handle_OFPST_AGGREGATE", "handle_OFPST_TABLE", "handle_OFPST_PORT", "handle_OFPST_QUEUE"):
+            out.append((rel,) + span(top[f]))
+        for m in ("handle_STATS_REPLY", "handle_PORT_STATUS", "handle_FEATURES_REPLY"):
+            out.append((rel,) + span(meth("DefaultOpenFlowHandlers", m)))
+        out.append((rel,) + span(meth("HandshakeOpenFlowHandlers", "handle_PORT_STATUS")))
+        hf = meth("HandshakeOpenFlowHandlers", "handle_FEATURES_REPLY")
+        for st in stmts(hf, lambda t: t.startswith(("con.original_ports._ports", "con.ports._reset", "con._deferred_port_status ="))):
+            out.append((rel, st.lineno, st.end_lineno))
+        fc = meth("HandshakeOpenFlowHandlers", "_finish_connecting")
+        for st in stmts(fc, lambda t: t.startswith("if con._deferred_port_status")):
+            out.append((rel, st.lineno, st.end_lineno))
+        for n in tree.body:
+            if isinstance(n, ast.Assign) and ast.unparse(n.targets[0]) == "statsHandlerMap": out.append((rel, n.lineno, n.end_lineno))
+        out.append((rel,) + span(top["PortCollection"]))
+        ci = meth("Connection", "__init__")
+        for st in stmts(ci, lambda t: t.startswith(("self._previous_stats", "self._deferred_port_status", "self.original_ports", "self.ports"))):
+            out.append((rel, st.lineno, st.end_lineno))
+        out.append((rel,) + span(meth("Connection", "_incoming_stats_reply")))
+        rel2 = "pox/openflow/__init__.py"
+        tree2 = ast.parse(open(os.path.join(common.REPO, rel2)).read())
+        for n in tree2.body:
+            if isinstance(n, ast.ClassDef) and n.name in ("RawStatsReply", "StatsReply") + tuple(STATS_EVENTS):
+                out.append((rel2,) + span(n))
+        return out
+
     # ------------------------------------------------------------------ setup
     def setup(self):
+        try: self.anchors = self._anchors_from_ast() or self.anchors
+        except Exception as e: common.log("C17: anchors from AST failed (%s); using the recorded line ranges" % e)
         sys.settrace(_imp_global)
         try:
             self.core = poxenv.boot()
